@@ -40,8 +40,18 @@ func (g *idGenerator) next() (id rulelist.URLFilterID) {
 	return rulelist.URLFilterID(id32)
 }
 
-// fix ensures that flts all have unique IDs.
+// fix ensures that flts all have unique IDs and that the IDs generated from
+// now on are greater than all of them.
 func (g *idGenerator) fix(flts []FilterYAML) {
+	// The generator starts from the time of the start of the program, which
+	// may be less than the IDs generated since the previous start, if that one
+	// was recent enough.
+	for _, f := range flts {
+		if id32 := int32(f.ID); id32 > g.current.Load() {
+			g.current.Store(id32)
+		}
+	}
+
 	set := container.NewMapSet[rulelist.URLFilterID]()
 	for i, f := range flts {
 		id := f.ID
